@@ -443,6 +443,9 @@ def run(ck):
                     fn_.id, sorted({s_.caller.id for s_ in mk})), fn_.where(t_),
                 ok_detail="no directory creation in the same region")
 
+    # ---- R13 every file patch is scheduled and queued --------------------------------------------------------------------------------
+    r13_every_file_patch_is_queued(ck, par)
+
     # ---- R8 names --------------------------------------------------------------------------------------------------------------
     adds = calls_named(par, "FilenameDistributor::<T>::add")
     ck.floor("C06-R8", "FilenameDistributor::add calls", len(adds), 1)
@@ -490,3 +493,37 @@ def run(ck):
             names = [x for x in df.walk(e) if df.is_call(x, "::old_filename", "::new_filename")]
             ck.require(bool(names), "C06-R8", "worker loads only names of its own file patch (%s)" % s.caller.name,
                        "get_or_load is given %s" % df.show(e, 120), s.where())
+
+
+def r13_every_file_patch_is_queued(ck, par, rule="C06-R13"):
+    """The single-threaded driver hands every file patch of a patch to apply_one_file_patch (C13-R3).  The parallel driver first sorts
+    them into per-thread queues: every file patch drawn from a loaded patch is registered with the distributor (first pass) and pushed
+    onto a queue (second pass) - an iteration that goes on to the next one without doing so drops that file patch from the parallel
+    run only (a `continue` for entries that "have nothing to apply": a mode-only entry still changes the mode)."""
+    prog = ck.prog
+    n_add = n_push = 0
+    for it in pt.iterations(par, prog):
+        ity = it["iter_ty"]
+        if "patch::FilePatch<" not in ity or "Result<" in ity or "(usize" in ity or "AppliedState" in ity:
+            continue
+        bf = it["body_fn"]
+        adds = {bb for bb, t, c in calls_named(bf, "FilenameDistributor::<T>::add") if bb in it["body"]}
+        pushes = {bb for bb, t in bf.calls() if bb in it["body"] and (callee_of(t).get("rpath") or "").endswith("Vec::<T, A>::push") and
+                  "FilePatch<" in (t["argtys"][0] if t["argtys"] else "")}
+        if adds:
+            n_add += 1
+            ck.require(pt.every_item_reaches(it, adds), rule, "every file patch of a loaded patch is registered with the distributor",
+                       "an iteration over the file patches can go on to the next one without FilenameDistributor::add: that file patch's names "
+                       "are not tied to a worker", it["where"], ok_detail="add() is on every path of an iteration")
+        if pushes:
+            n_push += 1
+            ck.require(pt.every_item_reaches(it, pushes), rule, "every file patch of a loaded patch is put on a worker's queue",
+                       "an iteration over the file patches can go on to the next one without pushing it onto a queue: the parallel run drops "
+                       "that file patch (its mode change, its creation of an empty file ...) while the single-threaded run applies it",
+                       it["where"], ok_detail="push onto a per-thread queue is on every path of an iteration")
+        if not adds and not pushes:
+            ck.info(rule, "a walk over file patches in the parallel driver that neither registers nor queues them",
+                       "the parallel driver walks over file patches (%s) without registering or queueing them: the rule does not know this pass" % ity[:80],
+                       it["where"])
+    ck.floor(rule, "passes registering file patches", n_add, 1)
+    ck.floor(rule, "passes queueing file patches", n_push, 1)
